@@ -394,6 +394,9 @@ func sectionB(run *hx.Run, r *hx.Rand) {
 	l := newLinter()
 	nws := run.N(10, 20)
 	for wi := 0; wi < nws; wi++ {
+		if !wantWorkspace(wi) {
+			continue
+		}
 		rr := r.Fork(uint64(wi))
 		o := optionSets[wi%len(optionSets)]
 		w := genWorkspace(rr, o)
@@ -417,11 +420,14 @@ func sectionB(run *hx.Run, r *hx.Rand) {
 				judge(run, l, w, b, lintCfg{v, use, o, nil}, fmt.Sprintf("clean workspace %d", wi), nil, replay)
 			}
 		}
-		plantAll(run, l, rr, w, o, wi, replay, nil)
+		plantAll(run, l, rr, w, o, wi, replay, nil, false)
 	}
 	// the name-collision family (collide.go): workspaces numbered from 100
 	for ci, nc := 0, run.N(2, 4); ci < nc; ci++ {
 		wi := 100 + ci
+		if !wantWorkspace(wi) {
+			continue
+		}
 		rr := r.Fork(uint64(wi))
 		o := optionSets[(ci*3+int(run.Seed%10))%len(optionSets)]
 		w, info := genCollisionWorkspace(rr, o)
@@ -444,8 +450,52 @@ func sectionB(run *hx.Run, r *hx.Rand) {
 				judge(run, l, w, b, lintCfg{v, use, o, nil}, fmt.Sprintf("clean name-collision workspace %d", wi), nil, replay)
 			}
 		}
-		plantAll(run, l, rr, w, o, wi, replay, info)
+		plantAll(run, l, rr, w, o, wi, replay, info, false)
 	}
+	// the wide workspace (wide.go), numbered from 200: LAST, so that its budget goes to what the other
+	// workspaces cannot offer (elements at an index >= 10) and to whatever stratum is still uncovered;
+	// one per run (the thorough tier runs two seeds, hence two of them)
+	for ci, nc := 0, 1; ci < nc; ci++ {
+		wi := 200 + ci
+		if !wantWorkspace(wi) {
+			continue
+		}
+		rr := r.Fork(uint64(wi))
+		o := optionSets[(ci*5+int(run.Seed%10)+3)%len(optionSets)]
+		w := genWideWorkspace(rr, o)
+		replay := fmt.Sprintf("c05 --seed %d --tier %s (wide workspace %d)", run.Seed, run.Tier, wi)
+		b, err := build(w)
+		if err != nil {
+			run.Fail(hx.OracleFailure{Class: "c05-harness-generated-invalid-workspace", What: "wide workspace: " + err.Error(), Input: textsOf(w), Replay: replay})
+			continue
+		}
+		if err := b.selfCheck(); err != nil {
+			run.Fail(hx.OracleFailure{Class: "c05-harness-renderer-position-table", What: err.Error(), Input: b.texts, Replay: replay})
+			continue
+		}
+		run.Count(fmt.Sprintf("W:workspace:files=%d", len(w.files)))
+		for _, v := range versions {
+			for _, use := range [][]string{{"MINIMAL"}, {"BASIC"}, {"STANDARD"}, {"COMMENTS"}, {"UNARY_RPC"}, allUse(v)} {
+				judge(run, l, w, b, lintCfg{v, use, o, nil}, fmt.Sprintf("clean wide workspace %d", wi), nil, replay)
+			}
+		}
+		plantAll(run, l, rr, w, o, wi, replay, nil, true)
+	}
+}
+
+// wantWorkspace: C05_WS=3,100,200 restricts Section B to these workspaces (development / replay aid;
+// Section A is skipped then)
+func wantWorkspace(wi int) bool {
+	v := os.Getenv("C05_WS")
+	if v == "" {
+		return true
+	}
+	for _, t := range strings.Split(v, ",") {
+		if t == fmt.Sprint(wi) {
+			return true
+		}
+	}
+	return false
 }
 
 func textsOf(w *wsT) map[string]string {
